@@ -42,6 +42,9 @@ type Occ struct {
 	// InForBoundsOfSameName: a read inside the bounds of a numeric for / explist of a generic for
 	// that declares the same name
 	InForBoundsOfSameName bool
+	// InAssignOfSameName: a read inside an assignment statement one of whose targets is the same bare
+	// name (c = c + 1), or inside the body of `function N ... end` reading N
+	InAssignOfSameName bool
 	// Value: for OWrite occurrences the assigned expression when matched positionally (may be nil)
 	Value Exp
 	// Base: the occurrence is the base of an index/call chain (`x` in x.y, x:m(), x[1], x())
@@ -222,10 +225,34 @@ func (bd *binder) stat(st Stat, s *scope, blockEnd int) {
 		if t.Method != nil {
 			bd.b.FieldNames[t.Method] = true
 		}
-		bd.function(t.Func, s)
+		if len(t.Fields) == 0 && t.Method == nil {
+			before := len(bd.b.Occs)
+			bd.function(t.Func, s)
+			for _, o2 := range bd.b.Occs[before:] {
+				if o2.Kind == ORead && o2.Name.Text == t.Base.Text {
+					o2.InAssignOfSameName = true
+				}
+			}
+		} else {
+			bd.function(t.Func, s)
+		}
 	case *AssignStat:
 		// the right-hand sides and the index expressions of the targets are evaluated first; the
 		// order does not matter for binding
+		tnames := map[string]bool{}
+		for _, tg := range t.Targets {
+			if ne, ok := tg.(*NameExp); ok {
+				tnames[ne.Name.Text] = true
+			}
+		}
+		beforeAssign := len(bd.b.Occs)
+		defer func() {
+			for _, o2 := range bd.b.Occs[beforeAssign:] {
+				if o2.Kind == ORead && tnames[o2.Name.Text] {
+					o2.InAssignOfSameName = true
+				}
+			}
+		}()
 		for _, e := range t.Exps {
 			bd.exp(e, s)
 		}
